@@ -36,7 +36,7 @@ URLSAFE = re.compile(r'^[A-Za-z0-9_-]*$')
 from vf.rt import P, cond, verdict, fail, untraced  # noqa: E402
 
 STARTS = (0, 1, M - 700, M - 1, 12345, M // 2)
-PATTERNS = ('zeros', 'ones', 'counter', 'repeat-3')
+PATTERNS = ('zeros', 'ones', 'counter', 'repeat-3', 'last-bit-toggles', 'be-call-counter', 'le-call-counter')
 K = 1400
 
 
@@ -60,7 +60,20 @@ class _PatternSecrets:
             return b'\xff' * n
         if self.kind == 'repeat-3':
             return bytes([(self.n % 3) * 85]) * n
+        if self.kind == 'last-bit-toggles':
+            return b'\x5a' * (n - 1) + bytes([0x5a ^ (self.n & 1)])
+        if self.kind == 'be-call-counter':
+            return (self.n - 1).to_bytes(n, 'big')
+        if self.kind == 'le-call-counter':
+            return (self.n - 1).to_bytes(n, 'little')
         return bytes((self.n * 7 + i) % 256 for i in range(n))
+
+    def token_urlsafe(self, n=32):
+        import base64
+        return base64.urlsafe_b64encode(self.token_bytes(n)).rstrip(b'=').decode('ascii')
+
+    def token_hex(self, n=32):
+        return self.token_bytes(n).hex()
 
 
 def _history(si, pi):
@@ -186,6 +199,13 @@ class _Secrets:
         v = self.values.pop(0)
         assert len(v) == n, 'random call size changed between encoding and replay'
         return v
+
+    def token_urlsafe(self, n=None):
+        import base64
+        return base64.urlsafe_b64encode(self.token_bytes(n)).rstrip(b'=').decode('ascii')
+
+    def token_hex(self, n=None):
+        return self.token_bytes(n).hex()
 
 
 def real_generate(rnd_values, seq):
@@ -369,11 +389,11 @@ def EXTRA(tier):
     else:
         res('c0_counter_initial', 'violated', clause='initial counter %r outside [0, 2^24)' % (init,), witness={'initial': init})
     srcs = [q for q, _, _ in e1.random_calls]
-    if rbits >= 96 and all(q == 'secrets.token_bytes' for q in srcs):
-        res('d0_random_source', 'confirmed', bound=['AST: random calls = %r, %d bits in total, all secrets.token_bytes' % (srcs, rbits)],
+    if rbits >= 96 and all(q in ('secrets.token_bytes', 'secrets.token_urlsafe', 'secrets.token_hex') for q in srcs):
+        res('d0_random_source', 'confirmed', bound=['AST: random calls = %r, %d bits in total, all from the secrets module (the OS cryptographic source)' % (srcs, rbits)],
             sample={'random_calls': srcs, 'bits': rbits}, kind='read from the AST')
     else:
-        res('d0_random_source', 'violated', clause='id embeds only %d random bits from %r (needs >= 96 from secrets.token_bytes)' % (rbits, srcs),
+        res('d0_random_source', 'violated', clause='id embeds only %d random bits from %r (needs >= 96 from the secrets module)' % (rbits, srcs),
             witness={'random_calls': srcs, 'bits': rbits})
     return results
 
